@@ -232,9 +232,9 @@ Proof. exact legacy_args_equiv_run_sp. Qed.
 Theorem C16_legacy_args_equiv_parse_fuel : forall s cx ps,
   star_premises s cx ps ->
   forall a p, forallb argchar_ok a = true ->
-    new_args_loop s cx (parse_fuel s) ps a p [] <> OutOfFuel ->
-    run s false cx (parse_fuel s) (TArgs ps (map std_spec a) [] p) <> OutOfFuel ->
-    agree (run s false cx (parse_fuel s) (TArgs ps (map std_spec a) [] p))
+    new_args_loop s cx (parse_fuel s cx) ps a p [] <> OutOfFuel ->
+    run s false cx (parse_fuel s cx) (TArgs ps (map std_spec a) [] p) <> OutOfFuel ->
+    agree (run s false cx (parse_fuel s cx) (TArgs ps (map std_spec a) [] p))
           (legacy_parse_args s false cx ps a false None p).
 Proof. exact legacy_args_equiv_parse_fuel_sp. Qed.
 
@@ -295,14 +295,14 @@ Proof. exact legacy_args_equiv_run_star_free. Qed.
 (** the executable entry points (fuel [parse_fuel s]) under the walker's default state ... *)
 Theorem C16_legacy_args_equiv : forall s cx, star_free cx = true ->
   forall a p, forallb argchar_ok a = true ->
-    agree (run s false cx (parse_fuel s) (TArgs (walker_state cx) (map std_spec a) [] p))
+    agree (run s false cx (parse_fuel s cx) (TArgs (walker_state cx) (map std_spec a) [] p))
           (legacy_parse_args s false cx (walker_state cx) a false None p).
 Proof. exact legacy_args_equiv_star_free. Qed.
 
 (** ... and under its [in_math_mode=True] sub-context *)
 Theorem C16_legacy_args_equiv_math : forall s cx, star_free cx = true ->
   forall a p, forallb argchar_ok a = true ->
-    agree (run s false cx (parse_fuel s) (TArgs (sub_context (walker_state cx) [UInMath true]) (map std_spec a) [] p))
+    agree (run s false cx (parse_fuel s cx) (TArgs (sub_context (walker_state cx) [UInMath true]) (map std_spec a) [] p))
           (legacy_parse_args s false cx (sub_context (walker_state cx) [UInMath true]) a false None p).
 Proof. exact legacy_args_equiv_star_free_math. Qed.
 
@@ -313,11 +313,13 @@ Theorem C16_args_run_is_fold : forall s cx a F F' ps p acc, F' <= F ->
   run s false cx F' (TArgs ps (map std_spec a) acc p) = new_args_loop s cx F ps a p acc.
 Proof. exact args_run_is_fold. Qed.
 
-(** the pylatexenc-3 side does not run out of the model's own fuel (argument strings up
-    to 37 characters, contexts with at most 10 argument slots per specification) *)
+(** the pylatexenc-3 side does not run out of the model's own fuel [parse_fuel s cx =
+    length s * (8 + max_args cx) + 40 + max_args cx], in EVERY context, for argument strings
+    of up to [37 + max_args cx] characters (the legacy argument string is a parameter of the
+    call, not part of the context from which the fuel is computed) *)
 Theorem C16_legacy_args_run_terminates : forall s cx a p,
-  ctx_wf cx = true -> p <= length s -> length a <= 37 ->
-  run s false cx (parse_fuel s) (TArgs (walker_state cx) (map std_spec a) [] p) <> OutOfFuel.
+  p <= length s -> length a <= 37 + max_args cx ->
+  run s false cx (parse_fuel s cx) (TArgs (walker_state cx) (map std_spec a) [] p) <> OutOfFuel.
 Proof. exact legacy_args_run_terminates. Qed.
 
 (** why the context hypothesis [star_free] is needed: [star_premises] does not hold of every
@@ -348,8 +350,8 @@ Example C16_legacy_args_nonvacuous :
   let ps := walker_state cx in
   let a := [42; 91; 123; 123]%N in
   exists nodes,
-    run s false cx (parse_fuel s) (TArgs ps (map std_spec a) [] 0) = Ok (OArgs (Some ([], nodes))) 11
-    /\ new_args_loop s cx (parse_fuel s) ps a 0 [] = Ok (OArgs (Some ([], nodes))) 11
+    run s false cx (parse_fuel s cx) (TArgs ps (map std_spec a) [] 0) = Ok (OArgs (Some ([], nodes))) 11
+    /\ new_args_loop s cx (parse_fuel s cx) ps a 0 [] = Ok (OArgs (Some ([], nodes))) 11
     /\ legacy_parse_args s false cx ps a false None 0 = LOk (map norm_arg nodes, 11)
     /\ map norm_arg nodes <> nodes /\ length nodes = 4.
 Proof.
@@ -366,14 +368,14 @@ Example C16_legacy_args_star_free_nonvacuous :
   let cx := Gen.GenWalkerCtx.default_ctx in
   let ps := sub_context (walker_state cx) [UInMath true] in
   let a := [42; 91; 123; 123]%N in
-  star_free cx = true /\ forallb argchar_ok a = true /\ ctx_wf cx = true /\
+  star_free cx = true /\ forallb argchar_ok a = true /\ length a <= 37 + max_args cx /\
   exists nodes,
-    run s false cx (parse_fuel s) (TArgs ps (map std_spec a) [] 0) = Ok (OArgs (Some ([], nodes))) 11
+    run s false cx (parse_fuel s cx) (TArgs ps (map std_spec a) [] 0) = Ok (OArgs (Some ([], nodes))) 11
     /\ legacy_parse_args s false cx ps a false None 0 = LOk (map norm_arg nodes, 11)
     /\ map norm_arg nodes <> nodes /\ length nodes = 4.
 Proof.
   cbv zeta. split; [vm_compute; reflexivity|]. split; [vm_compute; reflexivity|].
-  split; [vm_compute; reflexivity|].
+  split; [apply Nat.leb_le; vm_compute; reflexivity|].
   eexists. split; [vm_compute; reflexivity|]. split; [vm_compute; reflexivity|].
   split; [vm_compute; discriminate | vm_compute; reflexivity].
 Qed.
